@@ -251,4 +251,40 @@ def expectedNumbered (indices : List Int) (line : Bytes) : List (Bytes × Bytes)
     let v := capture indices line (i : Nat)
     if v = [] then none else some (natAscii i, v)
 
+/-! ### UTF-8 well-formedness of a text (RFC 3629 / Unicode table 3-7) as a DFA
+
+RFC 8259 section 8.1 wants JSON text exchanged as UTF-8; `parseObj` itself is byte level. -/
+
+inductive U8 where
+  | s0 | c1 | c2 | c3 | e0 | ed | f0 | f4
+  deriving DecidableEq
+
+def u8Step : U8 → UInt8 → Option U8
+  | .s0, c =>
+    if c < 0x80 then some .s0
+    else if 0xC2 ≤ c ∧ c ≤ 0xDF then some .c1
+    else if c = 0xE0 then some .e0
+    else if c = 0xED then some .ed
+    else if 0xE1 ≤ c ∧ c ≤ 0xEF then some .c2
+    else if c = 0xF0 then some .f0
+    else if 0xF1 ≤ c ∧ c ≤ 0xF3 then some .c3
+    else if c = 0xF4 then some .f4
+    else none
+  | .c1, c => if 0x80 ≤ c ∧ c ≤ 0xBF then some .s0 else none
+  | .c2, c => if 0x80 ≤ c ∧ c ≤ 0xBF then some .c1 else none
+  | .c3, c => if 0x80 ≤ c ∧ c ≤ 0xBF then some .c2 else none
+  | .e0, c => if 0xA0 ≤ c ∧ c ≤ 0xBF then some .c1 else none
+  | .ed, c => if 0x80 ≤ c ∧ c ≤ 0x9F then some .c1 else none
+  | .f0, c => if 0x90 ≤ c ∧ c ≤ 0xBF then some .c2 else none
+  | .f4, c => if 0x80 ≤ c ∧ c ≤ 0x8F then some .c2 else none
+
+def u8Run : U8 → Bytes → Option U8
+  | st, [] => some st
+  | st, c :: r =>
+    match u8Step st c with
+    | some st' => u8Run st' r
+    | none => none
+
+def validUtf8 (b : Bytes) : Bool := u8Run .s0 b == some .s0
+
 end Rare.C16
